@@ -73,7 +73,7 @@ func RenameArgumentsAction(newNames []string) RewriteAction {
 //   - the argument is not an array
 func ArrayToAppendAction() RewriteAction {
 	return func(_ ast.Schemas, _ ast.Builder, option ast.Option) []ast.Option {
-		if len(option.Args) != 1 || !option.Args[0].Type.IsArray() {
+		if len(option.Args) != 1 || !option.Args[0].Type.IsArray() || len(option.Assignments) == 0 {
 			return []ast.Option{option}
 		}
 
@@ -135,7 +135,7 @@ func ArrayToAppendAction() RewriteAction {
 //   - the argument is not a map
 func MapToIndexAction() RewriteAction {
 	return func(_ ast.Schemas, _ ast.Builder, option ast.Option) []ast.Option {
-		if len(option.Args) != 1 || !option.Args[0].Type.IsMap() {
+		if len(option.Args) != 1 || !option.Args[0].Type.IsMap() || len(option.Assignments) == 0 {
 			return []ast.Option{option}
 		}
 
@@ -230,7 +230,7 @@ func VeneerTrailAsCommentsAction() RewriteAction {
 // FIXME: considers the first argument only.
 func StructFieldsAsArgumentsAction(explicitFields ...string) RewriteAction {
 	return func(schemas ast.Schemas, builder ast.Builder, option ast.Option) []ast.Option {
-		if len(option.Args) < 1 {
+		if len(option.Args) < 1 || len(option.Assignments) == 0 {
 			return []ast.Option{option}
 		}
 
@@ -392,7 +392,7 @@ func StructFieldsAsArgumentsAction(explicitFields ...string) RewriteAction {
 // FIXME: considers the first argument only.
 func StructFieldsAsOptionsAction(explicitFields ...string) RewriteAction {
 	return func(schemas ast.Schemas, builder ast.Builder, option ast.Option) []ast.Option {
-		if len(option.Args) < 1 {
+		if len(option.Args) < 1 || len(option.Assignments) == 0 {
 			return []ast.Option{option}
 		}
 
@@ -631,6 +631,10 @@ type BooleanUnfold struct {
 //	```
 func UnfoldBooleanAction(unfoldOpts BooleanUnfold) RewriteAction {
 	return func(_ ast.Schemas, _ ast.Builder, option ast.Option) []ast.Option {
+		if len(option.Assignments) == 0 || len(option.Assignments[0].Path) == 0 {
+			return []ast.Option{option}
+		}
+
 		intoType := option.Assignments[0].Path.Last().Type
 
 		if !intoType.IsScalar() || intoType.Scalar.ScalarKind != ast.KindBool {
